@@ -640,22 +640,36 @@ def _build_sum(pat, arrangement, specs):
     return ("Add", _build_sum(pat, arrangement[0], specs), _build_sum(pat, arrangement[1], specs))
 
 
-def _arrangements(n: int):
-    import itertools
-    idx = list(range(n))
+def _groupings(seq):
+    """Every way of bracketing the sequence into a binary sum (Catalan number of them)."""
+    if len(seq) == 1:
+        return [seq[0]]
     out = []
-    for perm in itertools.permutations(idx):
-        if n == 2:
-            out.append((perm[0], perm[1]))
-        else:
-            out.append(((perm[0], perm[1]), perm[2]))
-            out.append((perm[0], (perm[1], perm[2])))
+    for i in range(1, len(seq)):
+        for l in _groupings(seq[:i]):
+            for r in _groupings(seq[i:]):
+                out.append((l, r))
     return out
+
+
+def _arrangements(n: int, perms=None):
+    import itertools
+    out = []
+    for perm in (perms if perms is not None else itertools.permutations(range(n))):
+        out.extend(_groupings(tuple(perm)))
+    return out
+
+
+# sums of four terms: every bracketing (5) of these orders; the thorough tier takes every order (24)
+FOUR_TERM_SUMS = [("cx", "c", "cy", "cx"), ("x", "c", "y", "x^n"), ("c", "cx", "y", "-x"), ("cx^n", "c", "y", "cx^n"),
+                  ("c", "x", "y", "c"), ("cx", "cy", "c", "x^n")]
+FOUR_TERM_ORDERS = [(0, 1, 2, 3), (3, 2, 1, 0), (1, 2, 3, 0), (2, 0, 3, 1)]
 
 
 def run_like_terms(chk: Check, prog: Program, S: Summaries) -> None:
     from .c08 import Pat
-    chk.rule("C16.R6", "has_like_terms gives the same answer for every order and grouping of the same terms (sums of 2-3 terms)",
+    chk.rule("C16.R6", "has_like_terms gives the same answer for every order and grouping of the same terms (sums of 2-3 terms: every "
+             "order and bracketing; selected sums of 4 terms: every bracketing, nested groups on either side)",
              minimum=30)
     chk.rule("C16.R7", "terms_are_like is reflexive and symmetric (pairs of natural-order term forms)", minimum=40)
     chk.rule("C16.R8", "the term predicates do not raise on sums of natural-order terms", minimum=30)
@@ -710,9 +724,23 @@ def run_like_terms(chk: Check, prog: Program, S: Summaries) -> None:
                 [c for c in itertools.combinations_with_replacement(["c", "x", "cx", "x^n", "cx^n", "y", "-x"], 3)]
     if chk.tier == "quick":
         multisets = multisets[:55] + multisets[55::3]
+    multisets = multisets + FOUR_TERM_SUMS
+    jobs = []
     for ms in multisets:
         n = len(ms)
-        arrs = _arrangements(n)
+        if n < 4:
+            jobs.append((ms, _arrangements(n)))
+        elif chk.tier == "quick":
+            jobs.append((ms, _arrangements(n, FOUR_TERM_ORDERS)))
+        else:
+            # every order, four at a time; each batch starts with the same reference arrangement, so agreement inside every
+            # batch is agreement of all 120 arrangements
+            perms = list(itertools.permutations(range(4)))
+            ref = _groupings((0, 1, 2, 3))[-1]
+            for i in range(0, len(perms), 4):
+                jobs.append((ms, [ref] + _arrangements(n, perms[i:i + 4])))
+    for ms, arrs in jobs:
+        n = len(ms)
 
         def body(it: Interp, ms=ms, arrs=arrs):
             results = []
